@@ -866,6 +866,19 @@ class SymRat:
     def floor(s) -> SymInt:
         return s.n // s.d
 
+    # the numeric protocol used by math.floor / math.ceil / math.trunc / int()
+    def __floor__(s):
+        return s.floor()
+
+    def __ceil__(s):
+        return -((-s.n) // s.d)
+
+    def __trunc__(s):
+        return s.trunc()
+
+    def __round__(s, ndigits=None):
+        raise Inconclusive('round() of an exact rational is not modelled')
+
     def trunc(s) -> SymInt:
         """Truncation toward zero (what `int()` does)."""
         if s.d.concrete() == 1:
